@@ -439,7 +439,7 @@ static size_t hs_mutate(Rng *r, uint8_t *rec, size_t len, size_t cap, int tls13,
 
 /* ------------------------------------------------------------ interposer */
 static const Plan *g_bp;
-static int g_byz_fired, g_byz_reenc;
+static int g_byz_fired, g_byz_reenc, g_byz_ccs_seen[2];
 static char g_byz_what[3][96];
 static Rng g_brng;
 
@@ -450,6 +450,7 @@ static void byz_on_record(Conn *c, int dir, int idx, const uint8_t *rec_in, size
 	static uint8_t plain[TLS_MAX_RECORD_SIZE + 8192], out[TLS_MAX_RECORD_SIZE + 8192];
 	int victim_dir = g_bp->victim == 0 ? DIR_S2C : DIR_C2S;
 	int hit = -1;
+	if (len >= 1 && rec_in[0] == TLS_record_change_cipher_spec) g_byz_ccs_seen[dir] = 1;
 	for (int i = 0; i < g_bp->nfaults; i++)
 		if (g_bp->faults[i].kind == F_MUT && g_bp->faults[i].dir == dir && g_bp->faults[i].rec == idx) hit = i;
 	if (dir != victim_dir || hit < 0 || len < 6 || len > TLS_MAX_RECORD_SIZE) { net_forward(c, dir, rec_in, len); return; }
@@ -459,6 +460,32 @@ static void byz_on_record(Conn *c, int dir, int idx, const uint8_t *rec_in, size
 	char *what = g_byz_what[hit % 3];
 	int tls13 = g_bp->proto == P_TLS13;
 
+	if (!tls13 && g_byz_ccs_seen[dir] && rec_in[0] == TLS_record_handshake && rng_chance(&r, 1, 2)) {
+		/* the sender's first protected record (its Finished) is replaced by a correctly protected record of its own
+		 * keys that is something else: application data, an alert, or a handshake message of another type */
+		TLS_CONNECT *sc = sender_conn(dir);
+		const SM3_HMAC_CTX *mac = dir == DIR_C2S ? &sc->client_write_mac_ctx : &sc->server_write_mac_ctx;
+		const SM4_KEY *ek = dir == DIR_C2S ? &sc->client_write_enc_key : &sc->server_write_enc_key;
+		uint8_t seq[8] = { 0 }, pt[5 + 64];
+		size_t n = 48, olen = 0;
+		int kind = (int)rng_below(&r, 3);
+		pt[0] = kind == 0 ? TLS_record_application_data : kind == 1 ? TLS_record_alert : TLS_record_handshake;
+		pt[1] = rec_in[1]; pt[2] = rec_in[2];
+		if (kind == 1) { n = 2; pt[5] = TLS_alert_level_warning; pt[6] = TLS_alert_close_notify; }
+		else {
+			payload_fill(dir, 7777, pt + 5, n);
+			if (kind == 2) { pt[5] = TLS_handshake_certificate_verify; pt[6] = 0; pt[7] = 0; pt[8] = (uint8_t)(n - 4); }
+			leak_add_secret("decrypted_plaintext", pt + 5 + 4, n - 4);
+		}
+		pt[3] = 0; pt[4] = (uint8_t)n;
+		if (tls_record_encrypt(mac, ek, seq, pt, 5 + n, out, &olen) == 1) {
+			snprintf(what, 96, "finished_replaced_by_protected_type%u", pt[0]);
+			g_byz_fired++;
+			sim_trace(EV_FAULT, F_MUT, idx);
+			net_forward(c, dir, out, olen);
+			return;
+		}
+	}
 	if (rec_in[0] == TLS_record_handshake) {
 		memcpy(plain, rec_in, len);
 		size_t n = hs_mutate(&r, plain, len, TLS_MAX_RECORD_SIZE, tls13, what, 96);
@@ -511,7 +538,7 @@ static void byz_on_record(Conn *c, int dir, int idx, const uint8_t *rec_in, size
 }
 
 /* ----------------------------------------------------------- generation */
-static struct { uint64_t key; int nrec[2]; int big[2]; int ok; uint64_t nmalloc[2]; } g_btwin;
+static struct { uint64_t key; int nrec[2]; int big[2]; int ok; uint64_t nmalloc[2]; int fin[2]; } g_btwin;
 
 static void byz_gen(Plan *p, uint64_t base_seed, uint64_t variant, int tier)
 {
@@ -536,12 +563,14 @@ static void byz_gen(Plan *p, uint64_t base_seed, uint64_t variant, int tier)
 		g_btwin.nmalloc[0] = g_sim.nodes[0].nmalloc; g_btwin.nmalloc[1] = g_sim.nodes[1].nmalloc;
 		for (int d = 0; d < 2; d++) {
 			size_t best = 0;
-			g_btwin.nrec[d] = 0; g_btwin.big[d] = 0;
-			for (int i = 0; i < o.nrecs[d]; i++)
+			g_btwin.nrec[d] = 0; g_btwin.big[d] = 0; g_btwin.fin[d] = 0;
+			for (int i = 0; i < o.nrecs[d]; i++) {
+				if (o.recs[d][i].in_hs && i > 0 && o.recs[d][i - 1].type == TLS_record_change_cipher_spec) g_btwin.fin[d] = i;
 				if (o.recs[d][i].in_hs) {
 					g_btwin.nrec[d]++;
 					if (o.recs[d][i].len > best) { best = o.recs[d][i].len; g_btwin.big[d] = i; }   /* the Certificate message */
 				}
+			}
 		}
 	}
 	if (!g_btwin.ok) return;
@@ -566,6 +595,7 @@ static void byz_gen(Plan *p, uint64_t base_seed, uint64_t variant, int tier)
 		memset(f, 0, sizeof(*f));
 		f->kind = F_MUT; f->dir = dir;
 		f->rec = rng_chance(&v, 1, 3) ? g_btwin.big[dir] : (int64_t)rng_below(&v, (uint32_t)n);
+		if (g_btwin.fin[dir] > 0 && rng_chance(&v, 1, 6)) f->rec = g_btwin.fin[dir];     /* the first protected record (Finished) */
 		f->a = (int64_t)(rng_u64(&v) >> 1);
 	}
 }
@@ -573,7 +603,7 @@ static void byz_gen(Plan *p, uint64_t base_seed, uint64_t variant, int tier)
 static void byz_run(const Plan *p, RunResult *r)
 {
 	static HonestOut o;
-	g_bp = p; g_byz_fired = 0; g_byz_reenc = 0;
+	g_bp = p; g_byz_fired = 0; g_byz_reenc = 0; g_byz_ccs_seen[0] = g_byz_ccs_seen[1] = 0;
 	memset(g_byz_what, 0, sizeof(g_byz_what));
 	rng_seed(&g_brng, (uint64_t)p->plan_seed, 0xb13);
 	conn_run(p, (p->cred_mode & 1) ? creds_get_eku((int)p->depth, p->proto == P_TLCP) : creds_get((int)p->depth, p->proto == P_TLCP), &o, byz_on_record, NULL);
